@@ -559,6 +559,9 @@ func (c Component) HashInto(h hash.Hash) {
 	tbuf := []byte{0, 0, 0, 0, 0, 0, 0, 0}
 	binary.BigEndian.PutUint64(tbuf, uint64(c.Typ))
 	h.Write(tbuf)
+	// the length delimits the value: without it /a/b and a single component "a"||type||"b" feed the same bytes
+	binary.BigEndian.PutUint64(tbuf, uint64(len(c.Val)))
+	h.Write(tbuf)
 	h.Write(c.Val)
 }
 
